@@ -403,7 +403,13 @@ Ours(n, cid, m, consumed) ==
           ok      == NextChoice(n, c1, offered)
           tries   == IF Has(retryC[n], cid) THEN retryC[n][cid].tries ELSE 1
       IN
-      IF ok = <<>> THEN
+      IF ok # <<>> /\ Head(ok) = "notakey" THEN
+           \* send_extend has popped the retry cache when key_from_public_bin raises on the chosen candidate: the hop is
+           \* there, nothing is sent, no timer is left - the circuit idles (pinged) until max_time
+           /\ circ' = [circ EXCEPT ![n] = Beat(Put(@, cid, c1), n, cid)]
+           /\ retryC' = [retryC EXCEPT ![n] = Del(@, cid)]
+           /\ Emit(consumed, <<>>) /\ UNCHANGED <<pend, ctr>>
+      ELSE IF ok = <<>> THEN
            \* no candidate (the fall-back to own exit candidates is not modelled: FirstHops are relays only)
            LET r == RemoveCircuitStep(n, cid, FALSE) IN
            /\ circ' = [circ EXCEPT ![n] = Beat(Put(r.circ, cid, [c1 EXCEPT !.closing = TRUE]), n, cid)]
@@ -836,7 +842,7 @@ ForgeDestroy(src, dst, cid, signer) ==
 MangleAnswer(d, how, newcid) ==
   /\ AdvStep /\ d \in net /\ d.t = "cell" /\ d.m.t \in {"created", "extended"}
   /\ d.plain   \* the attacker can only rewrite what is not protected by a layer it cannot remove
-  /\ how \in {"ident", "cid", "eph", "ephauth", "auth", "cands"}
+  /\ how \in {"ident", "cid", "eph", "ephauth", "auth", "cands", "candkey"}
   /\ newcid \in 0..ctr.cid /\ (how = "cid" => newcid # d.cid)
   /\ LET m == d.m
          ae == 0 - (ctr.adv + 1)        \* a fresh ephemeral key of the attacker (ids <= 0 are the attacker's)
@@ -846,6 +852,8 @@ MangleAnswer(d, how, newcid) ==
                  [] how = "ephauth" -> [m EXCEPT !.eph = ae, !.auth = [e1 |-> m.auth.e1, e2 |-> ae]]
                  [] how = "auth" -> [m EXCEPT !.auth = [e1 |-> m.auth.e1, e2 |-> 0 - 1000000]]   \* a tag that verifies for no key
                  [] how = "cands" -> [m EXCEPT !.cands = [k |-> AdvKey, v |-> m.cands.v]]
+                 \* (the joined node itself: a correctly encrypted list that holds something which is not a public key)
+                 [] how = "candkey" -> [m EXCEPT !.cands = [k |-> m.cands.k, v |-> [relays |-> <<"notakey">>, exits |-> <<"notakey">>]]]
      IN net' = (net \ {d}) \cup {[d EXCEPT !.m = m2, !.cid = IF how = "cid" THEN newcid ELSE @]}
   /\ ctr' = [ctr EXCEPT !.adv = IF how \in {"eph", "ephauth"} THEN @ + 1 ELSE @] /\ AdvFrame
 
@@ -902,7 +910,7 @@ Adversary ==
   \/ "rpforge" \in AdvKinds /\ \E rp \in Node, cid \in 1..ctr.cid : RPForge(rp, cid)
   \/ "reflect" \in AdvKinds /\ \E rp \in Node, d \in net : RPReflect(rp, d)
   \/ "nested" \in AdvKinds /\ \E x \in Node, cid \in 1..ctr.cid, tg \in 1..ctr.cid : OutsideNested(x, cid, tg)
-  \/ "mangle" \in AdvKinds /\ \E d \in net, how \in {"ident", "cid", "eph", "ephauth", "auth", "cands"}, c \in 0..ctr.cid :
+  \/ "mangle" \in AdvKinds /\ \E d \in net, how \in {"ident", "cid", "eph", "ephauth", "auth", "cands", "candkey"}, c \in 0..ctr.cid :
         (how # "cid" => c = 0) /\ MangleAnswer(d, how, c)
 
 Tail2 == wire' = (IF TrackWire THEN wire \cup net' ELSE wire) /\ stepc' = (IF UseIds THEN stepc + 1 ELSE 0)
